@@ -80,6 +80,7 @@ def run(c: Check):
     for cfg, inv, what in (
             ("Lifecycle_sanity_nowait.cfg", "ShutdownWaits", "Shutdown does not wait for the handlers"),
             ("Lifecycle_sanity_lateclose.cfg", "NoAcceptAfterBegin", "listeners closed late: a request slips in"),
+            ("Lifecycle_sanity_lateclose_act.cfg", "AcceptOnlyWhileStarted", "listeners closed late (action property)"),
             ("Lifecycle_sanity_deadline.cfg", "DeadlineBounds", "Shutdown ignores the deadline"),
             ("Lifecycle_sanity_doublenil.cfg", "MisuseErrors", "second Shutdown returns nil")):
         c.tlc_mc("Lifecycle", cfg, expect_violation=inv, name="sanity: " + what)
@@ -92,11 +93,11 @@ def run(c: Check):
                               "result": "expected-violation:ShutdownReturnsByDeadline"})
 
     # ---- the real servers
-    env = {"VERIF_EXT5_REPS": 3 if th else 1, "VERIF_EXT5_MAXK": 5 if th else 3, "VERIF_EXT5_RACES": 4 if th else 2}
+    env = {"VERIF_EXT5_REPS": 5 if th else 1, "VERIF_EXT5_MAXK": 5 if th else 3, "VERIF_EXT5_RACES": 4 if th else 2}
     out, _ = c.go_harness("internal/dnsserver", "^TestVerifEXT5$", files=["ext5_test.go"], env=env, timeout=1500)
     ev = read_ndjson(out)
     if th:
-        env2 = dict(env, VERIF_EXT5_REPS=1, VERIF_EXT5_MAXK=4)
+        env2 = dict(env, VERIF_EXT5_REPS=2, VERIF_EXT5_MAXK=4)
         out2, _ = c.go_harness("internal/dnsserver", "^TestVerifEXT5$", files=["ext5_test.go"], env=env2, race=True,
                                timeout=1800)
         ev += read_ndjson(out2)
@@ -156,8 +157,14 @@ def run(c: Check):
                      "(A released before the deadline, B after it, C/C0 nothing in flight, R unparked queries racing "
                      "with the call), a mid and a late query, the misuse calls; non-trivial = a handler was parked or "
                      "a query raced with Shutdown; distinct by (transport, scenario, k, racers, deadline?, result)")
-    # the findings must not hide behind a vacuous run: every transport has to have gone through A, B and C
+    aborted = [(sg[0]["tr"], sg[0]["scen"], sg[0]["k"], sg[-1].get("why")) for sg in segs if sg[-1]["ev"] == "Abort"]
+    if aborted:
+        c.notes.append("aborted worlds: %s" % aborted[:10])
+    # a verdict about the code outranks the vacuity accounting; without one every transport has to have gone
+    # through A, B, C and C0 and has to have seen both kinds of return
     if not c.violations:
+        if aborted:
+            raise Undecided("worlds that could not be driven: %s" % aborted[:10])
         missing = [(tr, s) for tr in LANES for s in ("A", "B", "C", "C0") if per[tr][s] == 0]
         if missing:
             raise Undecided("worlds never exercised: %s" % missing)
